@@ -101,6 +101,11 @@ func discharge(ob *Obligation, workDir string, timeoutS int, agree bool) {
 	if first > 4 {
 		first = 4
 	}
+	if ob.Timeout > 0 && ob.Timeout/3 > first {
+		// a function that declares a larger budget gets a longer first attempt, so that a query that is merely
+		// slowed down by the other solver processes is not restarted three-fold
+		first = ob.Timeout / 3
+	}
 	if ob.Cover {
 		r := runSolver(solvers[0], file, 2)
 		ob.Solver, ob.TimeS, ob.Output = r.solver, r.dur, r.out
@@ -191,7 +196,7 @@ func discharge(ob *Obligation, workDir string, timeoutS int, agree bool) {
 			}
 		}
 	}
-	if ob.Result == want {
+	if ob.Result == want && os.Getenv("GOVC_KEEPALL") == "" {
 		os.Remove(file)
 	}
 }
